@@ -21,6 +21,7 @@ CONSTANTS
   Expiry = 1209600
   MaxReplClusters = 100
   MaxClusterCount = 64
+  Ext <- ExtNone
 INIT Init
 NEXT Next
 VIEW View0
